@@ -38,19 +38,21 @@ PROPS = {
             {
                 "name": "c17",
                 "run_vo": "Model/RunKeystoreWrite.vo",
-                "n_quick": 12,
+                "n_quick": 8,
                 "n_thorough": 40,
                 "model": True
             }
         ],
         "trusted": [
-            "cooperative scheduler in the harness (cmd/acra-vh/c17.go): every back-end call of every real keystore handle waits for the scheduler; the lock bookkeeping of the scheduler mirrors Model.KeystoreWrite.lock_step",
+            "cooperative scheduler in the harness (cmd/acra-vh/c17.go): every back-end call of every real keystore handle waits for the scheduler (a handle can be paused between ANY two of its back-end calls); handles start without a key ring object, OpenKeyRingRW and the generate/destroy entry points are scheduled like the ring-level operations; the lock bookkeeping of the scheduler mirrors Model.KeystoreWrite.lock_step; schedules are enumerated depth first over the handles that can step (all of them for two handles x short programs, else all single-preemption schedules)",
+            "the replay carries the back-end call of every granted step: the model must be about to make the same call (lock scope of every operation, ring creation included, is part of the correspondence)",
             "same abstraction of key ring files as C08 (vh/ksw.go)",
             "flock across processes and the Go memory model are outside the model; v1 single-handle stress under -race not done"
         ],
         "assumptions": [
             "each back-end call is atomic; Lock/RLock exclude as sync.RWMutex/flock do",
-            "serializability for ALL interleavings is proved by exhaustive computation in Coq for two writers x one operation each (bounded); unbounded: lock discipline lemmas + per-update preservation lemmas only"
+            "proved for ALL handles/programs/interleavings: lock scope, stored rings only grow, ring creation is atomic (Proofs/KeystoreLock.v); serializability is proved by exhaustive computation in Coq for bounded configurations (two writers x one operation on an existing ring; two and three handles racing on the creation of a ring) under EVERY schedule; the unbounded simulation proof of serializability is not done",
+            "generate (open+AddKey+SetCurrent) is three separate locked updates in acra: a generate call that fails in SetCurrent leaves its key added (counted as gen:err-key-added, not a violation of the property as stated)"
         ]
     },
     "C08": {
